@@ -202,15 +202,19 @@ Theorem C17_norm_and_inner_product_nonfinite (u v : list (xval F)) ps :
   (length v = psum ps -> In NaNv v -> xdnorm2sq F zero add mul tiny ps v = NaNv) /\
   (forall t, xgt F ltb NaNv t = false).
 Proof.
-  split; [apply xinner_nan|]. split; [apply xnorm2sq_nan|]. split; [apply xdinner_nan|]. split; [apply xdnorm2sq_nan|].
-  intros; reflexivity.
+  refine (conj _ (conj _ (conj _ (conj _ _)))).
+  - apply xinner_nan.
+  - apply xnorm2sq_nan.
+  - apply (xdinner_nan F zero add mul div eqb ltb tiny).
+  - apply xdnorm2sq_nan.
+  - intros; reflexivity.
 Qed.
 
 Theorem C17_norm_and_inner_product_finite (u v : list F) ps :
   xinner F zero add mul (map Fin u) (map Fin v) = Fin (inner u v) /\
   xnorm2sq F zero add mul tiny (map Fin v) = Fin (norm2sq v) /\
   xdnorm2sq F zero add mul tiny ps (map Fin v) = Fin (dnorm2sq F zero add mul tiny ps v).
-Proof. split; [apply xinner_fin|]. split; [apply xnorm2sq_fin|apply xdnorm2sq_fin]. Qed.
+Proof. refine (conj _ (conj _ _)); [apply xinner_fin|apply xnorm2sq_fin|apply xdnorm2sq_fin]. Qed.
 
 (* ---------- the operator used for extraction ---------- *)
 Theorem C17_csr_operator (A : csr F) x p a bb :
